@@ -134,6 +134,46 @@ func (r *hopRig) try(body []byte) (bool, []byte, []byte, string) {
 	return true, hdr, bdy, ""
 }
 
+// batch: several requests from different originators multiplexed onto one connection (what a device does) are in
+// flight at once — injected back to back, read afterwards; each must surface with its own routing words
+func (r *hopRig) batch(c *Ctx, ttl int) {
+	if r.site.kind != "bt" || r.site.cooked {
+		return
+	}
+	n := 3
+	var bodies [][]byte
+	for i := 0; i < n; i++ {
+		k := 1 + c.R.Intn(minInt(ttl, 4))
+		bodies = append(bodies, btBody(c.R, k, []byte{'p', byte('0' + i)}))
+	}
+	for _, b := range bodies {
+		r.pipe.Inject(b)
+	}
+	vp.Quiesce()
+	hdr0 := make([]byte, 4)
+	binary.BigEndian.PutUint32(hdr0, r.pipe.Id)
+	for i, b := range bodies {
+		call := vp.GoRecv(r.proto)
+		if !call.Wait(time.Second) || call.Err != nil {
+			c.Violate(fmt.Sprintf("%s ttl=%d: request %d of %d multiplexed on one connection was not delivered", r.site.name, ttl, i+1, n),
+				map[string]interface{}{"site": r.site.name, "ttl": ttl, "bodies": []string{vp.Hex(bodies[0]), vp.Hex(bodies[1]), vp.Hex(bodies[2])}})
+			return
+		}
+		obs := vp.Hex(call.Msg.Header) + " " + vp.Hex(call.Msg.Body)
+		call.Msg.Free()
+		class := fmt.Sprintf("%s multiplexed", r.site.name)
+		c.Class(class, true)
+		c.T.Line(class, fmt.Sprintf("hop.%s %d %s %s", r.site.name, ttl, vp.Hex(hdr0), vp.Hex(b)), obs)
+	}
+}
+
+func minInt(a, b int) int {
+	if a < b {
+		return a
+	}
+	return b
+}
+
 func btBody(r *vp.Rand, k int, payload []byte) []byte {
 	// k routing words: k-1 pipe ids (bit 31 clear), then a request id (bit 31 set)
 	var b []byte
@@ -172,6 +212,7 @@ func runC09(c *Ctx) {
 				c.Violate(fmt.Sprintf("%s: cannot set up TTL %d: %v", s.name, ttl, err), map[string]interface{}{"site": s.name, "ttl": ttl})
 				continue
 			}
+			rig.batch(c, ttl)
 			var ks []int
 			if c.Thorough() || ttl <= 8 {
 				for k := 0; k <= ttl+2; k++ {
